@@ -10,10 +10,11 @@ open IbcVerif.Localhost
 open IbcVerif.WasmStore (Bytes KV)
 
 /-- **Membership ⇔ sentinel proof ∧ two-element path ∧ the store holds exactly that value at the key**
-(`path[1]`; the first element, the store prefix, is ignored). For every store, proof, path and value. -/
+(`path[1]`; the first element, the store prefix, is ignored). For every store, proof, path and value.
+(`key ≠ []`: the SDK store panics on an empty key, which no store can hold anyway.) -/
 theorem membership_iff (store : KV) (proof : Bytes) (path : Path) (value : Bytes) :
     verifyMembership store proof path value = .ok () ↔
-      proof = sentinelProof ∧ ∃ pfx key, path = some [pfx, key] ∧ store.get key = some value := by
+      proof = sentinelProof ∧ ∃ pfx key, path = some [pfx, key] ∧ key ≠ [] ∧ store.get key = some value := by
   unfold verifyMembership
   by_cases hp : proof = sentinelProof
   · subst hp
@@ -24,21 +25,33 @@ theorem membership_iff (store : KV) (proof : Bytes) (path : Path) (value : Bytes
     | some [_] => simp
     | some (_ :: _ :: _ :: _) => simp
     | some [a, k] =>
-      simp only [List.length_cons, List.length_nil, bne_self_eq_false, Bool.false_eq_true, if_false]
-      cases h : store.get k with
-      | none => simp [List.getD, h]
-      | some bz =>
-        by_cases hv : bz = value
-        · subst hv; simp [List.getD, h]; exact ⟨a, k, ⟨rfl, rfl⟩, h⟩
-        · have : (bz != value) = true := by simpa using hv
-          simp [List.getD, h, this, hv]
+      have hgd : ([a, k] : List Bytes).getD 1 [] = k := rfl
+      simp only [List.length_cons, List.length_nil, bne_self_eq_false, Bool.false_eq_true, if_false, hgd]
+      by_cases hk : k = []
+      · subst hk; simp
+      · have hke : k.isEmpty = false := by cases k <;> simp_all
+        simp only [hke, Bool.false_eq_true, if_false]
+        constructor
+        · intro h
+          cases hg : store.get k with
+          | none => rw [hg] at h; simp at h
+          | some bz =>
+            rw [hg] at h
+            by_cases hv : bz = value
+            · subst hv; exact ⟨a, k, rfl, hk, hg⟩
+            · have : (bz != value) = true := by simpa using hv
+              simp [this] at h
+        · rintro ⟨p, key, hp, _, hg⟩
+          simp only [Option.some.injEq, List.cons.injEq, and_true] at hp
+          obtain ⟨_, rfl⟩ := hp
+          simp [hg]
   · have : (proof != sentinelProof) = true := by simpa using hp
     simp [this, hp]
 
 /-- **Non-membership ⇔ sentinel proof ∧ two-element path ∧ the key is absent from the store.** -/
 theorem nonmembership_iff (store : KV) (proof : Bytes) (path : Path) :
     verifyNonMembership store proof path = .ok () ↔
-      proof = sentinelProof ∧ ∃ pfx key, path = some [pfx, key] ∧ store.get key = none := by
+      proof = sentinelProof ∧ ∃ pfx key, path = some [pfx, key] ∧ key ≠ [] ∧ store.get key = none := by
   unfold verifyNonMembership
   by_cases hp : proof = sentinelProof
   · subst hp
@@ -49,10 +62,21 @@ theorem nonmembership_iff (store : KV) (proof : Bytes) (path : Path) :
     | some [_] => simp
     | some (_ :: _ :: _ :: _) => simp
     | some [a, k] =>
-      simp only [List.length_cons, List.length_nil, bne_self_eq_false, Bool.false_eq_true, if_false]
-      cases h : store.get k with
-      | none => simp [List.getD, WasmStore.KV.has, h]; exact ⟨a, k, ⟨rfl, rfl⟩, h⟩
-      | some bz => simp [List.getD, WasmStore.KV.has, h]
+      have hgd : ([a, k] : List Bytes).getD 1 [] = k := rfl
+      simp only [List.length_cons, List.length_nil, bne_self_eq_false, Bool.false_eq_true, if_false, hgd]
+      by_cases hk : k = []
+      · subst hk; simp
+      · have hke : k.isEmpty = false := by cases k <;> simp_all
+        simp only [hke, Bool.false_eq_true, if_false, WasmStore.KV.has]
+        constructor
+        · intro h
+          cases hg : store.get k with
+          | none => exact ⟨a, k, rfl, hk, hg⟩
+          | some bz => simp [hg] at h
+        · rintro ⟨p, key, hp, _, hg⟩
+          simp only [Option.some.injEq, List.cons.injEq, and_true] at hp
+          obtain ⟨_, rfl⟩ := hp
+          simp [hg]
   · have : (proof != sentinelProof) = true := by simpa using hp
     simp [this, hp]
 
@@ -61,10 +85,10 @@ theorem membership_excludes_nonmembership (store : KV) (p p' : Bytes) (pfx pfx' 
     (h : verifyMembership store p (some [pfx, key]) value = .ok ()) :
     verifyNonMembership store p' (some [pfx', key]) ≠ .ok () := by
   rw [membership_iff] at h
-  obtain ⟨_, a, k, hk, hg⟩ := h
+  obtain ⟨_, a, k, hk, _, hg⟩ := h
   intro h'
   rw [nonmembership_iff] at h'
-  obtain ⟨_, a', k', hk', hg'⟩ := h'
+  obtain ⟨_, a', k', hk', _, hg'⟩ := h'
   simp only [Option.some.injEq, List.cons.injEq, and_true] at hk hk'
   rw [← hk.2] at hg; rw [← hk'.2] at hg'
   rw [hg] at hg'; cases hg'
@@ -74,10 +98,10 @@ theorem membership_excludes_nonmembership (store : KV) (p p' : Bytes) (pfx pfx' 
 theorem keeper_verification_iff (s : State) (proof : Bytes) (path : Path) (value : Bytes) :
     ((step s (.kVerifyMembership proof path value)).2 = .ok ↔
       s.allowed = true ∧ proof = sentinelProof ∧
-        ∃ pfx key, path = some [pfx, key] ∧ s.store.get key = some value) ∧
+        ∃ pfx key, path = some [pfx, key] ∧ key ≠ [] ∧ s.store.get key = some value) ∧
     ((step s (.kVerifyNonMembership proof path)).2 = .ok ↔
       s.allowed = true ∧ proof = sentinelProof ∧
-        ∃ pfx key, path = some [pfx, key] ∧ s.store.get key = none) := by
+        ∃ pfx key, path = some [pfx, key] ∧ key ≠ [] ∧ s.store.get key = none) := by
   constructor
   · rw [← membership_iff]
     cases ha : s.allowed <;> simp only [step, route, ha, statusActive] <;>
@@ -135,9 +159,9 @@ store *at that moment* holds the value, a non-membership verification exactly wh
 theorem history_verification (s : State) (ops : List Op) (proof : Bytes) (path : Path) (value : Bytes) :
     let s' := (run s ops).1
     ((step s' (.verifyMembership proof path value)).2 = .ok ↔
-      proof = sentinelProof ∧ ∃ pfx key, path = some [pfx, key] ∧ s'.store.get key = some value) ∧
+      proof = sentinelProof ∧ ∃ pfx key, path = some [pfx, key] ∧ key ≠ [] ∧ s'.store.get key = some value) ∧
     ((step s' (.verifyNonMembership proof path)).2 = .ok ↔
-      proof = sentinelProof ∧ ∃ pfx key, path = some [pfx, key] ∧ s'.store.get key = none) := by
+      proof = sentinelProof ∧ ∃ pfx key, path = some [pfx, key] ∧ key ≠ [] ∧ s'.store.get key = none) := by
   intro s'
   constructor
   · rw [← membership_iff]; simp only [step]
